@@ -112,6 +112,14 @@ class Exec(X.PyExec):
             # python ints without dtype: int64 when they fit, otherwise numpy falls back to float64
             return Sym(z3.If(z3.And(t >= -(2**63), t < 2**63), t, FLOAT53(t)), "int64")
         t, isr = self.num(e)
+        if dtype in X.DT and not isr:
+            # an explicit integer dtype narrows C-style (numpy scalars wrap silently; a python int out
+            # of range raises in recent numpy - either way the stored value is not the given one)
+            w, sg = X.DT[dtype]
+            lo = -(1 << (w - 1)) if sg else 0
+            src = X.DT.get(e.dtype) if isinstance(e, Sym) else None
+            if not (src is not None and not src[1] and not sg and src[0] <= w):
+                t = z3.simplify((t - lo) % (1 << w) + lo)
         return Sym(t, dtype)
 
     def subscript(self, base, idx, st):
